@@ -16,6 +16,14 @@
 //	                                (a consistency parameter)  => ok | err:<status>
 //	points                          id|name|pass|v|host|dc|time-ns (tags host and dc, absent when %; fields id, v)
 //	from-nodes                      db|rp|measurement|where[|options|parent], options = letters of optLetters
+//	udp <db> <rp> <flow|held> <datagram>&<datagram>&…
+//	                                a real services/udp Service (Database db, RetentionPolicy rp, PointsWriter = the TaskMaster) is
+//	                                opened on a loopback port and sent the datagrams (lines as in hwrite, precision ns) from one
+//	                                socket, in order. `held`: the FIRST WritePoints call the service makes is held back (back-pressure:
+//	                                WritePoints may block as long as it likes on tm.writesMu / a full write_points edge) until serve()
+//	                                has read ALL datagrams; `flow`: nothing is held, the scheduler decides.
+//	                                => ok|err:… pf=<points_parse_fail> calls=<n;n;…> (len(points) of every WritePoints call, in order;
+//	                                suffix e = it returned an error, p = it panicked)
 //	cwrite <db> <rp> <w1>&<w2>&…    one goroutine per writer, each calling WritePoints with its points, all at once
 //	drain                           TaskMaster.Drain: every fork is deleted, the executions end; WritePoints is closed for good
 //	swrite <db> <rp> <points>       points fed through a StreamCollector of tm.Stream(name) (works after a drain too)
@@ -38,12 +46,14 @@ import (
 	"compress/gzip"
 	"expvar"
 	"fmt"
+	"net"
 	"net/http"
 	"os"
 	"os/exec"
 	"path/filepath"
 	"strconv"
 	"strings"
+	"sync"
 	"sync/atomic"
 	"time"
 
@@ -51,8 +61,10 @@ import (
 	"github.com/influxdata/kapacitor"
 	"github.com/influxdata/kapacitor/edge"
 	kexpvar "github.com/influxdata/kapacitor/expvar"
+	"github.com/influxdata/kapacitor/keyvalue"
 	"github.com/influxdata/kapacitor/models"
 	"github.com/influxdata/kapacitor/server/vars"
+	"github.com/influxdata/kapacitor/services/udp"
 
 	"verifharness/kit"
 )
@@ -1311,6 +1323,208 @@ func (r *runner) hwrite(db, rp, prec string, hasDB, hasRP bool, flags string, li
 	return obs
 }
 
+// ---------------------------------------------------------------------------------------------
+// UDP ingestion (services/udp): bytes of one datagram -> models.ParsePoints -> PointsWriter.WritePoints
+
+type udpDiag struct{}
+
+func (udpDiag) Error(string, error, ...keyvalue.T) {}
+func (udpDiag) StartedListening(string)            {}
+func (udpDiag) ClosedService()                     {}
+
+// gateWriter is the PointsWriter the udp.Service is given: the TaskMaster's WritePoints behind a gate. While the gate is shut the
+// call blocks before it has looked at a single point - which is what WritePoints does under back-pressure (tm.writesMu held by
+// Drain/Close, or the write_points edge full); the points it is handed are only converted (mp.Name(), mp.Tags(), mp.Fields())
+// once it runs. It records len(points) and the outcome of every call; a panic of the conversion is recovered here (the call runs
+// on the service's own goroutine, it would kill the process).
+type gateWriter struct {
+	tm    *kapacitor.TaskMaster
+	gate  chan struct{}
+	mu    sync.Mutex
+	calls []string
+}
+
+func (g *gateWriter) WritePoints(db, rp string, c imodels.ConsistencyLevel, pts []imodels.Point) (err error) {
+	<-g.gate
+	res := strconv.Itoa(len(pts))
+	defer func() {
+		if rec := recover(); rec != nil {
+			res += "p"
+			err = fmt.Errorf("panic in WritePoints")
+		} else if err != nil {
+			res += "e"
+		}
+		g.mu.Lock()
+		g.calls = append(g.calls, res)
+		g.mu.Unlock()
+	}()
+	return g.tm.WritePoints(db, rp, c, pts)
+}
+
+func (g *gateWriter) snapshot() []string {
+	g.mu.Lock()
+	defer g.mu.Unlock()
+	return append([]string{}, g.calls...)
+}
+
+// udpStat reads one counter of the service listening on addr (a counter that was never incremented does not exist yet: 0).
+func udpStat(addr, key string) int64 {
+	data, err := vars.GetStatsData()
+	if err != nil {
+		return -1
+	}
+	for _, d := range data {
+		if d.Name == "udp" && d.Tags["bind"] == addr {
+			if v, ok := d.Values[key].(int64); ok {
+				return v
+			}
+		}
+	}
+	return 0
+}
+
+const maxNanoTime = int64(^uint64(0)>>1) - 1 // influxdb models.MaxNanoTime; every generated stamp is far above MinNanoTime
+
+// lineFails: the harness' own reading (for its waiting only) of which lines make models.ParsePoints return an error.
+func (l *hline) fails() bool { return l.p == nil && l.skip < 0 || l.p != nil && l.ts > maxNanoTime }
+
+func (r *runner) udp(db, rp, mode string, packets [][]hline) string {
+	r.source("writepoints")
+	g := &gateWriter{tm: r.tm.TM, gate: make(chan struct{})}
+	opened := false
+	open := func() {
+		if !opened {
+			opened = true
+			close(g.gate)
+		}
+	}
+	defer open()
+	if mode != "held" {
+		open()
+	}
+	svc := udp.NewService(udp.Config{Enabled: true, BindAddress: "127.0.0.1:0", Database: db, RetentionPolicy: rp}, udpDiag{})
+	svc.PointsWriter = g
+	if err := svc.Open(); err != nil {
+		return "err:open pf=0 calls=-"
+	}
+	addr := svc.Addr().String()
+	status := "ok"
+	conn, err := net.DialUDP("udp", nil, svc.Addr())
+	if err != nil {
+		status = "err:dial"
+	}
+	var total int64
+	if status == "ok" {
+		for _, pk := range packets {
+			var body bytes.Buffer
+			for _, l := range pk {
+				switch {
+				case l.p != nil:
+					body.WriteString(lpLine(l.p, l.ts))
+				case l.skip >= 0:
+					body.WriteString(skipLines[l.skip%len(skipLines)] + "\n")
+				default:
+					body.WriteString(badLines[l.bad%len(badLines)] + "\n")
+				}
+			}
+			if n, err := conn.Write(body.Bytes()); err != nil || n != body.Len() {
+				status = "err:send"
+				break
+			}
+			total += int64(body.Len())
+		}
+		conn.Close()
+	}
+	poll := func(limit time.Duration, done func() bool) bool {
+		deadline := time.Now().Add(limit)
+		for i := 0; ; i++ {
+			if done() {
+				return true
+			}
+			if time.Now().After(deadline) {
+				return false
+			}
+			if i < 40 {
+				time.Sleep(50 * time.Microsecond)
+			} else {
+				time.Sleep(time.Millisecond)
+			}
+		}
+	}
+	// serve() has read every datagram (they are counted before they are handed to processPackets) ...
+	if status == "ok" && !poll(3*time.Second, func() bool { return udpStat(addr, "bytes_rx") >= total }) {
+		status = "err:rx"
+	}
+	// ... only now may the first WritePoints call go on
+	open()
+	var pf int64
+	if status == "ok" && !poll(r.limit(), func() bool {
+		pf = udpStat(addr, "points_parse_fail")
+		return int64(len(g.snapshot()))+pf >= int64(len(packets))
+	}) {
+		status = "err:stuck"
+	}
+	pf = udpStat(addr, "points_parse_fail")
+	if _, hung := r.call("udp.Service.Close", func() error { return svc.Close() }); hung {
+		return "hang pf=0 calls=-"
+	}
+	calls := g.snapshot()
+	if status == "ok" && !r.closed {
+		for _, pk := range packets {
+			var good []*point
+			times := map[int64]time.Time{}
+			bad := false
+			for k := range pk {
+				if pk[k].fails() {
+					bad = true
+				}
+				if pk[k].p != nil {
+					good = append(good, pk[k].p)
+					times[pk[k].p.id] = time.Unix(0, pk[k].ts).UTC()
+				}
+			}
+			if !bad && len(good) > 0 {
+				r.accepted(db, rp, good, times)
+			}
+		}
+	}
+	cs := "-"
+	if len(calls) > 0 {
+		cs = strings.Join(calls, ";")
+	}
+	return fmt.Sprintf("%s pf=%d calls=%s", status, pf, cs)
+}
+
+// parseHLines: the lines of one body / datagram (`!k`, `#k`, `<point>@<ts>`), re-rendered with the harness' own oracle column.
+func parseHLines(tok string) (lines []hline, toks []string, ok bool) {
+	for _, x := range strings.Split(tok, ",") {
+		if strings.HasPrefix(x, "!") || strings.HasPrefix(x, "#") {
+			k, err := strconv.Atoi(x[1:])
+			if err != nil || k < 0 {
+				return nil, nil, false
+			}
+			if x[0] == '!' {
+				lines = append(lines, hline{bad: k, skip: -1})
+			} else {
+				lines = append(lines, hline{skip: k})
+			}
+			toks = append(toks, x)
+			continue
+		}
+		ptok, tsTok, hasTS := strings.Cut(x, "@")
+		p, err := parsePoint(ptok)
+		if err != nil || p.name == "" || !hasTS {
+			return nil, nil, false
+		}
+		ts, err := strconv.ParseInt(tsTok, 10, 64)
+		if err != nil {
+			return nil, nil, false
+		}
+		lines, toks = append(lines, hline{p: p, ts: ts, skip: -1}), append(toks, pointTok(p)+"@"+strconv.FormatInt(ts, 10))
+	}
+	return lines, toks, true
+}
+
 // cwrite: several writers at once, one WritePoints call each.
 func (r *runner) cwrite(db, rp string, writers [][]*point) string {
 	r.source("writepoints")
@@ -1688,6 +1902,32 @@ func execCase(ops []string) (out []string, hung string) {
 			}
 			line = fmt.Sprintf("hwrite %s %s %s %s %s", t[1], t[2], t[3], strings.Join(toks, ","), flags)
 			guard(line, func() string { return r.hwrite(db, rp, t[3], t[1] != "%", t[2] != "%", flags, lines) })
+		case "udp":
+			if len(t) != 5 || (t[3] != "flow" && t[3] != "held") {
+				out = append(out, line+" => badop")
+				continue
+			}
+			{
+				db, _ := kit.Unesc(t[1])
+				rp, _ := kit.Unesc(t[2])
+				var packets [][]hline
+				var ptoks []string
+				ok := db != ""
+				for _, pk := range strings.Split(t[4], "&") {
+					lines, toks, good := parseHLines(pk)
+					if !good {
+						ok = false
+						break
+					}
+					packets, ptoks = append(packets, lines), append(ptoks, strings.Join(toks, ","))
+				}
+				if !ok {
+					out = append(out, line+" => badop")
+					continue
+				}
+				line = fmt.Sprintf("udp %s %s %s %s", t[1], t[2], t[3], strings.Join(ptoks, "&"))
+				guard(line, func() string { return r.udp(db, rp, t[3], packets) })
+			}
 		case "cwrite":
 			if len(t) != 4 {
 				out = append(out, line+" => badop")
